@@ -18,6 +18,7 @@ type vctx struct {
 	children []*vctx
 	key, val interface{}
 	isValue  bool
+	cause    error
 }
 
 func (c *vctx) Deadline() (time.Time, bool) { return time.Time{}, false }
@@ -109,4 +110,79 @@ func WithDeadline(parent context.Context, d time.Time) (context.Context, context
 func WithValue(parent context.Context, key, val interface{}) context.Context {
 	pv, _ := parent.(*vctx)
 	return &vctx{parent: pv, isValue: true, key: key, val: val}
+}
+
+func WithCancelCause(parent context.Context) (context.Context, context.CancelCauseFunc) {
+	ctx, _ := WithCancel(parent)
+	c := ctx.(*vctx)
+	return ctx, func(cause error) {
+		c.mu.Lock()
+		if c.err == nil && c.cause == nil {
+			c.cause = cause
+		}
+		c.mu.Unlock()
+		c.cancel(context.Canceled)
+	}
+}
+
+func Cause(ctx context.Context) error {
+	c, ok := ctx.(*vctx)
+	if !ok {
+		return nil
+	}
+	for x := c; x != nil; x = x.parent {
+		if x.isValue {
+			continue
+		}
+		x.mu.Lock()
+		err, cause := x.err, x.cause
+		x.mu.Unlock()
+		if cause != nil {
+			return cause
+		}
+		if err != nil {
+			return err
+		}
+	}
+	return nil
+}
+
+// WithoutCancel: a context that keeps the values but is never cancelled.
+func WithoutCancel(parent context.Context) context.Context {
+	pv, _ := parent.(*vctx)
+	nc := &vctx{done: make(chan struct{})}
+	// values are looked up through the parent chain; cancellation is cut by a fresh root
+	return &vctx{parent: &vctx{parent: valuesOnly(pv), isValue: true}, isValue: true, key: nc, val: nc}
+}
+
+func valuesOnly(p *vctx) *vctx {
+	if p == nil {
+		return &vctx{done: make(chan struct{})}
+	}
+	if !p.isValue {
+		return valuesOnly(p.parent)
+	}
+	return &vctx{parent: valuesOnly(p.parent), isValue: true, key: p.key, val: p.val}
+}
+
+// AfterFunc runs f in its own goroutine once ctx is done.
+func AfterFunc(ctx context.Context, f func()) (stop func() bool) {
+	stopped := make(chan struct{})
+	var once sync.Once
+	ran := false
+	go func() {
+		select {
+		case <-ctx.Done():
+			once.Do(func() { ran = true })
+			if ran {
+				f()
+			}
+		case <-stopped:
+		}
+	}()
+	return func() bool {
+		won := false
+		once.Do(func() { won = true; close(stopped) })
+		return won
+	}
 }
